@@ -17,6 +17,7 @@
 #include <hgraph/types/graph_wiring.h>
 #include <hgraph/types/metadata/type_registry.h>
 #include <hgraph/types/value/value.h>
+#include <hgraph/types/value/compact_container_ops.h>
 #include <hgraph/types/value/value_builder.h>
 #include <hgraph/util/verif_hook.h>
 
@@ -479,6 +480,54 @@ namespace
         }
     };
 
+    // ---- kind 8: feedback<TS<HomogeneousTuple<Int>>> whose producer writes IMMUTABLE COMPACT tuples: the source's
+    // planned state does not accept them in place, the sink goes through replace_state(capture_delta(ts)).
+    // Script "8 t 1 len base": the tuple (base, base+1, ..).  passive field = 1: declared initial value (1, 2).
+    // Probe lines 37 id t n x1..xn (id 1 written, 2 delivered).
+    using WTup = TS<HomogeneousTuple<Int>>;
+    [[nodiscard]] Value compact_tuple(std::int64_t len, std::int64_t base)
+    {
+        const auto *meta    = scalar_descriptor<HomogeneousTuple<Int>>::value_meta();
+        const auto  binding = ValuePlanFactory::instance().type_for(scalar_descriptor<Int>::value_meta());
+        ListBuilder builder{binding};
+        for (std::int64_t i = 0; i < len; ++i) { builder.push_back(Int{base + i}); }
+        ListStorage storage = builder.build_storage();
+        return Value{compact_list_type(binding, *meta), &storage};
+    }
+    struct WTupleSource
+    {
+        static constexpr auto name              = "hgv_tuple_source";
+        static constexpr bool schedule_on_start = true;
+        static void start(State<Int> index) { index.set(Int{0}); }
+        static void eval(NodeScheduler sched, State<Int> index, DateTime now, Out<WTup> out)
+        {
+            apply_steps(sched, index, now, [&](const WStep &st) {
+                if (st.op == 1)
+                {
+                    auto mutation = static_cast<const TSOutputView &>(out).begin_mutation(now);
+                    static_cast<void>(mutation.move_value_from(compact_tuple(st.key, st.value)));
+                }
+            });
+        }
+    };
+    struct WTupleProbe
+    {
+        static constexpr auto name = "hgv_tuple_probe";
+        static void eval(In<"x", WTup> x, Scalar<"id", Int> id, DateTime now)
+        {
+            Line l{37, static_cast<std::int64_t>(id.value()), us(now)};
+            const ValueView v = static_cast<const TSInputView &>(x).value();
+            if (v.has_value())
+            {
+                const auto list = v.as_indexed_view();
+                l.push_back((std::int64_t)list.size());
+                for (std::size_t i = 0; i < list.size(); ++i) { l.push_back(static_cast<std::int64_t>(list.at(i).template checked_as<Int>())); }
+            }
+            else { l.push_back(-1); }
+            g_wout->line(l);
+        }
+    };
+
     struct CycleObs : LifecycleObserver
     {
         hgv::Out *out;
@@ -544,6 +593,14 @@ namespace
                 wire<WBundleProbe>(w, pr, Int{1});
                 wire<WBundleProbe>(w, fb(), Int{2});
                 wire<WBundleProbe>(w, fbi(), Int{3});
+            }
+            else if (kind == 8)
+            {
+                auto pr = wire<WTupleSource>(w);
+                auto fb = passive_flag != 0 ? stdlib::feedback<WTup>(w, compact_tuple(2, 1)) : stdlib::feedback<WTup>(w);
+                fb(pr);
+                wire<WTupleProbe>(w, pr, Int{1});
+                wire<WTupleProbe>(w, fb(), Int{2});
             }
             else if (kind == 7)
             {
